@@ -195,6 +195,11 @@ def _enum_generate(tier):
         for extra in range(0, 420 if tier == "thorough" else 130):
             for clamped in (True, False):
                 cases.append({"p": p, "n": p + 1 + extra, "clamped": clamped})
+    if tier != "thorough":
+        # knot vectors longer than 256 entries belong to the domain as well (a few of them in the quick tier, all in the thorough one)
+        for p, n in ((1, 255), (2, 254), (3, 253), (3, 260), (5, 251), (7, 300)):
+            for clamped in (True, False):
+                cases.append({"p": p, "n": n, "clamped": clamped})
     return cases
 
 
